@@ -127,7 +127,7 @@ func (vc *VC) buildScript(onlyCand bool) (string, []*Obligation) {
 		if ob.Term == "true" {
 			continue
 		}
-		if !onlyCand || ob.Candidate > 0 {
+		if (!onlyCand || ob.Candidate > 0) && !ob.Skip {
 			b.WriteString("(push 1)\n(assert (not " + ob.Term + "))\n(check-sat)\n(pop 1)\n")
 			checked = append(checked, ob)
 		}
